@@ -1010,7 +1010,8 @@ impl<'a> Gen<'a> {
     fn nullable(&self) -> bool {
         matches!(self.ct.kind, 1 | 3 | 5)
     }
-    fn new(ct: &'a CT, rng: &mut Rng, sorted: bool) -> Self {
+    /// `small`: a program that is also evaluated in Coq (no long strings: every byte is a list element there)
+    fn new(ct: &'a CT, rng: &mut Rng, sorted: bool, small: bool) -> Self {
         let mut pool = vec![];
         let n = rng.range(2, 5) as usize;
         let small_sums = rng.chance(2, 3);
@@ -1052,7 +1053,7 @@ impl<'a> Gen<'a> {
                 for _ in 0..n {
                     pool.push(Bytes(rng.pick(&strs).to_vec()));
                 }
-                if rng.chance(1, 3) {
+                if !small && rng.chance(1, 3) {
                     // a value whose length needs a 2-byte LEB128 header
                     pool.push(Bytes(vec![b'x'; 130 + rng.below(70) as usize]));
                 }
@@ -1135,7 +1136,7 @@ impl<'a> Gen<'a> {
             5 => room,
             _ => rng.below(room as u64 + 1) as usize,
         };
-        let ins_max = if grow { 24 } else { 2 };
+        let ins_max = if grow { (max_len / 2).clamp(2, 24) } else { 2 };
         match rng.below(100) {
             0..=29 => Edit::Splice(i, del, self.vals(rng, ins_max)),
             30..=44 => Edit::Insert(i, self.val(rng)),
@@ -1253,7 +1254,7 @@ impl<'a> Gen<'a> {
                 let a = rng.below((len - at) as u64 + 1) as usize;
                 Edit::Cursor(at, vec![Cop::Advance(a), Cop::InsertRun(self.val(rng), 1), Cop::Seek((at + a).saturating_sub(1 + rng.below(2) as usize))])
             }
-            9 => Edit::Cursor(inside, vec![Cop::Delete(len - inside + rng.below(4) as usize), Cop::InsertRun(self.val(rng), 2), Cop::Delete(3)]),
+            9 => Edit::Cursor(inside, vec![Cop::Delete(len - inside + rng.below(4) as usize), Cop::InsertRun(self.val(rng), 2), Cop::Delete(3), Cop::Seek(len)]),
             10 => Edit::Cursor(inside, vec![Cop::Seek(far(rng).min(len + 7)), Cop::InsertRun(self.val(rng), 1), Cop::Replace(self.val(rng))]),
             _ => {
                 if self.ct.fam == Fam::Delta {
@@ -1399,7 +1400,7 @@ fn short(vs: &[Val]) -> serde_json::Value {
 }
 
 fn run_program(rng: &mut Rng, ct: &CT, ms: usize, cfg: &ProgCfg, rep: &mut Report, cw: &mut CaseWriter) {
-    let mut g = Gen::new(ct, rng, cfg.sorted);
+    let mut g = Gen::new(ct, rng, cfg.sorted, cfg.model);
     let mut col = make(ct, ms);
     let mut mirror: Vec<Val> = vec![];
     // class of the input for finding signatures: delta programs whose values spread over the whole 2^63-wide domain
@@ -1516,7 +1517,7 @@ fn run_program(rng: &mut Rng, ct: &CT, ms: usize, cfg: &ProgCfg, rep: &mut Repor
         let qs = g.queries(rng, &mirror, cfg.nq, cfg.oor);
         let mut coq_q: Vec<String> = vec![];
         if let Some(v) = &impl_vec {
-            if model_ok && (mirror.len() <= 48 || step_no % 4 == 0) {
+            if model_ok && (step_no % 3 == 2 || step_no + 1 == cfg.steps || (mirror.len() <= 8 && cfg.model)) {
                 coq_q.push(format!("(QVec,{})", coq_vals(v)));
             } else {
                 coq_q.push(format!("(QLen,[I {}])", v.len()));
@@ -1548,7 +1549,7 @@ fn run_program(rng: &mut Rng, ct: &CT, ms: usize, cfg: &ProgCfg, rep: &mut Repor
                                                 "got": short(&a), "want": short(&want)})));
                         failed = true;
                     }
-                    if coq_q.len() < 5 && a_cmp.len() <= 400 {
+                    if coq_q.len() < 3 && a_cmp.len() <= 30 {
                         coq_q.push(format!("({},{})", q.coq(), coq_vals(&a_cmp)));
                     }
                 }
@@ -1606,7 +1607,7 @@ fn run_raw(rng: &mut Rng, ms: usize, steps: usize, oor: bool, model: bool, rep: 
                     0 => 0,
                     1 | 2 => rng.range(1, 4) as usize,
                     3 => rng.range(1, 12) as usize,
-                    _ => rng.range(1, 3 * ms.min(40) as u64) as usize,
+                    _ => rng.range(1, if model { 6 } else { 3 * ms.min(40) as u64 }) as usize,
                 };
                 rng.bytes(l)
             })
@@ -1752,7 +1753,7 @@ pub fn run(rng: &mut Rng, tier: &str, out: &str) -> Report {
     }
     let seg_choices: [usize; 8] = [2, 3, 4, 5, 8, 16, 64, 4];
     // per type: big direct programs, small model programs, sorted programs, out-of-range programs
-    let (n_big, n_model, n_sorted, n_oor) = if thorough { (140, 24, 30, 40) } else { (14, 6, 4, 6) };
+    let (n_big, n_model, n_sorted, n_oor) = if thorough { (600, 24, 24, 40) } else { (60, 4, 4, 6) };
     for ct in TYPES {
         for i in 0..n_big {
             let ms = *rng.pick(&seg_choices);
@@ -1762,27 +1763,27 @@ pub fn run(rng: &mut Rng, tier: &str, out: &str) -> Report {
         }
         for _ in 0..n_model {
             let ms = *rng.pick(&seg_choices[..5]);
-            let cfg = ProgCfg { steps: rng.range(10, 36) as usize, max_len: 60, sorted: false, oor: false, huge: false, model: true, nq: 4 };
+            let cfg = ProgCfg { steps: rng.range(6, 15) as usize, max_len: 20, sorted: false, oor: false, huge: false, model: true, nq: 4 };
             run_program(rng, ct, ms, &cfg, &mut rep, &mut cw);
         }
         for i in 0..n_sorted {
             let ms = *rng.pick(&seg_choices[..6]);
             let model = i % 2 == 0;
-            let cfg = ProgCfg { steps: if model { 30 } else { 150 }, max_len: if model { 60 } else { 400 }, sorted: true, oor: false, huge: false, model, nq: 4 };
+            let cfg = ProgCfg { steps: if model { 12 } else { 150 }, max_len: if model { 20 } else { 400 }, sorted: true, oor: false, huge: false, model, nq: 4 };
             run_program(rng, ct, ms, &cfg, &mut rep, &mut cw);
         }
         for i in 0..n_oor {
             let ms = *rng.pick(&seg_choices[..6]);
             let model = i % 2 == 0;
-            let cfg = ProgCfg { steps: rng.range(10, 40) as usize, max_len: 80, sorted: false, oor: true, huge: !model, model, nq: 3 };
+            let cfg = ProgCfg { steps: if model { rng.range(6, 14) } else { rng.range(10, 60) } as usize, max_len: if model { 16 } else { 120 }, sorted: false, oor: true, huge: !model, model, nq: 3 };
             run_program(rng, ct, ms, &cfg, &mut rep, &mut cw);
         }
     }
-    let n_raw = if thorough { 200 } else { 24 };
+    let n_raw = if thorough { 400 } else { 40 };
     for i in 0..n_raw {
         let ms = *rng.pick(&[1usize, 2, 3, 8, 16, 64, 4096]);
         let model = i % 3 == 0;
-        run_raw(rng, ms, if model { 20 } else { 120 }, i % 4 == 1, model, &mut rep, &mut cw);
+        run_raw(rng, ms, if model { 10 } else { 120 }, i % 4 == 1, model, &mut rep, &mut cw);
     }
     rep.model_cases = cw.total as u64;
     cw.finish();
@@ -1804,6 +1805,24 @@ pub fn probe() {
         c.find_by_value(i64::MAX as u64).collect::<Vec<_>>()
     });
     println!("C find_by_value([2^63-1], 2^63-1) -> {:?}", r.map_err(|p| format!("{} at {}", p.message, p.location)));
+    // D: find_by_value of the largest value of a column spanning the whole 2^63-wide domain
+    let r = guard(|| {
+        let c = DeltaColumn::<i64>::from_values(vec![-(1i64 << 62), (1i64 << 62) - 1]);
+        c.find_by_value((1i64 << 62) - 1).collect::<Vec<_>>()
+    });
+    println!("D find_by_value([-2^62, 2^62-1], 2^62-1) -> {:?}", r.map_err(|p| format!("{} at {}", p.message, p.location)));
+    // B': the all-builds panic
+    let r = guard(|| {
+        let pat = [1u64, 0, 0, 1, 0, 0, 1, 1, 0, 0, 1, 0, 1, 1, 0, 0, 1];
+        let mut c = DeltaColumn::<u64>::with_max_segments(16);
+        c.splice(0, 0, pat.iter().map(|b| b * a).collect::<Vec<u64>>());
+        c.remove_n(13, 2);
+        c.to_vec().len()
+    });
+    println!("B' ms=16 remove_n(13,2) -> {:?}", r.map_err(|p| format!("{} at {}", p.message, p.location)));
+    if std::env::var("HEXCOL_PROBE").map(|v| v == "short").unwrap_or(false) {
+        return;
+    }
     // B: random search + shrink: values in {0, A}, one remove_n
     let mut rng = Rng::new(7);
     let try_case = |ms: usize, vals: &Vec<u64>, i: usize, k: usize| -> Option<String> {
